@@ -515,13 +515,14 @@ fn c18_round(ctx: &Ctx, out: &mut Out, rng: &mut Rng, k: u64) {
     }
     drop(accept_conns);
     if missing > 0 {
-        if drops_closed_loop > 0 && !spoofer_ran && nclients <= 64 && cfg.extra_env.is_empty() {
-            // closed-loop clients have one request outstanding each: at most 64 datagrams (well
-            // under 150 KiB of socket memory) were ever queued, which the default receive buffer
-            // (208 KiB) holds. Drops here mean the server's socket cannot hold what it is meant to.
+        if drops_closed_loop > 0 && !spoofer_ran && nclients <= 16 && cfg.extra_env.is_empty() {
+            // closed-loop clients have one request outstanding each (three at most, counting the
+            // ones that timed out): with up to 16 clients at most 48 datagrams (about 110 KiB of
+            // socket memory) were ever queued, which the default receive buffer (208 KiB) holds.
+            // Drops here mean the server's socket cannot hold what it is meant to.
             out.violation(
                 "C18 requests-dropped-at-the-server-socket closed-loop",
-                &format!("{} closed-loop requests were lost and the kernel dropped {} datagrams at the server's socket although at most {} requests were ever outstanding ({} workers, batch_size {:?})", missing, drops_closed_loop, nclients, nworkers, cfg.batch_size),
+                &format!("{} closed-loop requests were lost and the kernel dropped {} datagrams at the server's socket although at most {} requests were ever outstanding ({} workers, batch_size {:?})", missing, drops_closed_loop, 3 * nclients, nworkers, cfg.batch_size),
                 desc.clone(),
             );
         } else if drops1 != drops0 {
